@@ -400,3 +400,26 @@ func ruleResultFresh(w *World, r *Recorder, rule string, fn *ssa.Function, name 
 	r.Check(ok, rule, name+"#result-fresh", w.FnPos(fn), "the bytes returned are freshly allocated (provenance: "+pr.String()+")",
 		"the bytes returned may share memory with "+pr.String()+": a later call (or the caller's object) can change what was handed out")
 }
+
+// importRules runs another property's check and takes over the obligations
+// that keep(o) selects, filed under newRule (the construct is prefixed with
+// the original rule so that keys stay distinct). A property whose statement
+// presupposes another's ("all C01 rules met", "encoding is faithful") decides
+// that part with the same rule instances.
+func importRules(w *World, r *Recorder, from func(*World, *Recorder) propInfo, newRule string, keep func(*Oblig) bool) {
+	sub := NewRecorder(r.Property)
+	from(w, sub)
+	n := 0
+	for _, o := range sub.Obs {
+		if o.Rule == "floor" || !keep(o) {
+			continue
+		}
+		o.Construct = o.Rule + ":" + o.Construct
+		o.Rule = newRule
+		r.add(o)
+		n++
+	}
+	if n == 0 {
+		r.Undecide(newRule, "imported", "-", "no obligation of the presupposed property was produced")
+	}
+}
